@@ -887,6 +887,119 @@ theorem askPermission_error {fs fs' : FS} {a : Args} {d : Path} {e : Err} (h : a
       · simp at h
     · exact ⟨(congrArg Prod.fst h).symm, hacc'⟩
 
+/-! ### an accepted destination was not a directory (whatever the configuration, whatever the answer at the prompt) -/
+
+/-- `_ask_permission` without `--accept-file`, destination an existing directory: refused for EVERY answer -/
+theorem askPermission_dir {fs : FS} {a : Args} {d : Path} (hacc : a.acceptFile = false) (hd : fs.isDir d = true) :
+    askPermission fs a d = (fs, .error .transferRejected) := by
+  have hex : fs.pathExists d = true := isDir_exists hd
+  unfold askPermission
+  by_cases h2 : answerYes a.answer = true
+  · rcases removeExisting_spec fs d with ⟨hf, _⟩ | ⟨_, _, e⟩ | ⟨_, hdd, _⟩
+    · rw [isFile_not_isDir hf] at hd; exact absurd hd (by decide)
+    · simp [hacc, h2, hex, e]
+    · rw [hdd] at hd; exact absurd hd (by decide)
+  · simp [hacc, h2]
+
+/-- second half of `_decide_destname` with `--accept-file`: what it returns was not a directory when it was called -/
+theorem confirmOverwrite_ok_accept {fs fs' : FS} {a : Args} {d d' : Path} {ow : Bool} (hacc : a.acceptFile = true)
+    (h : confirmOverwrite fs a d ow = (fs', .ok d')) : d' = d ∧ fs.isDir d = false := by
+  unfold confirmOverwrite at h
+  by_cases hex : fs.pathExists d = true
+  · rw [if_pos hex] at h
+    by_cases how : ow = true
+    · rw [if_pos how, if_pos hacc] at h
+      rcases removeExisting_spec fs d with ⟨hf, e⟩ | ⟨_, _, e⟩ | ⟨_, hdD, e⟩
+      · rw [e] at h
+        simp only [Prod.mk.injEq, Except.ok.injEq] at h
+        exact ⟨h.2.symm, isFile_not_isDir hf⟩
+      · rw [e] at h; simp at h
+      · rw [e] at h
+        simp only [Prod.mk.injEq, Except.ok.injEq] at h
+        exact ⟨h.2.symm, hdD⟩
+    · rw [if_neg how] at h; simp at h
+  · rw [if_neg hex] at h
+    simp only [Prod.mk.injEq, Except.ok.injEq] at h
+    exact ⟨h.2.symm, not_exists_not_isDir (by simpa using hex)⟩
+
+theorem decideDest_ok_accept {fs fs' : FS} {a : Args} {n d : Path} (hacc : a.acceptFile = true)
+    (h : decideDest fs a n = (fs', .ok d)) : fs.isDir d = false := by
+  obtain ⟨d0, ow, e⟩ := decideDest_eq fs a n
+  rw [e] at h
+  obtain ⟨h1, h2⟩ := confirmOverwrite_ok_accept hacc h
+  rw [h1]; exact h2
+
+/-- `_decide_destname` followed by `_ask_permission`, both agreeing: the destination was not a directory —
+    with `--accept-file` `_decide_destname` found out, without it the prompt did (for every answer) -/
+theorem decide_ask_ok_not_dir {fs f1 f2 : FS} {a : Args} {n dest : Path} {u : Unit}
+    (hd : decideDest fs a n = (f1, .ok dest)) (ha : askPermission f1 a dest = (f2, .ok u)) : fs.isDir dest = false := by
+  by_cases hacc : a.acceptFile = true
+  · exact decideDest_ok_accept hacc hd
+  · have hacc' : a.acceptFile = false := by simpa using hacc
+    have h1 : f1 = fs := by
+      have := decideDest_noaccept (fs := fs) n hacc'
+      rw [hd] at this; exact this
+    rw [h1] at ha
+    cases hdd : fs.isDir dest
+    · rfl
+    · rw [askPermission_dir hacc' hdd] at ha; simp at ha
+
+theorem handleFile_ok_not_dir {fs fs1 : FS} {a : Args} {n d t : Path} (h : handleFile fs a n = (fs1, .ok (d, t))) :
+    fs.isDir d = false := by
+  unfold handleFile at h
+  cases hd : decideDest fs a n with
+  | mk f1 r1 =>
+    rw [hd] at h
+    cases r1 with
+    | error e => simp at h
+    | ok dest =>
+      simp only at h
+      cases hf : freeSpaceProbe f1 a dest with
+      | error e => rw [hf] at h; simp at h
+      | ok u =>
+        rw [hf] at h
+        simp only at h
+        cases ha : askPermission f1 a dest with
+        | mk f2 r2 =>
+          rw [ha] at h
+          cases r2 with
+          | error e => simp at h
+          | ok u2 =>
+            simp only at h
+            split at h
+            · simp at h
+            · simp only [Prod.mk.injEq, Except.ok.injEq] at h
+              obtain ⟨_, h2, _⟩ := h
+              rw [← h2]
+              exact decide_ask_ok_not_dir hd ha
+
+theorem handleDirectory_ok_not_dir {fs fs1 : FS} {a : Args} {m n d : Path} (h : handleDirectory fs a m n = (fs1, .ok d)) :
+    fs.isDir d = false := by
+  unfold handleDirectory at h
+  split at h
+  · simp at h
+  · cases hd : decideDest fs a n with
+    | mk f1 r1 =>
+      rw [hd] at h
+      cases r1 with
+      | error e => simp at h
+      | ok dest =>
+        simp only at h
+        cases hf : freeSpaceProbe f1 a dest with
+        | error e => rw [hf] at h; simp at h
+        | ok u =>
+          rw [hf] at h
+          simp only at h
+          cases ha : askPermission f1 a dest with
+          | mk f2 r2 =>
+            rw [ha] at h
+            cases r2 with
+            | error e => simp at h
+            | ok u2 =>
+              simp only [Prod.mk.injEq, Except.ok.injEq] at h
+              rw [← h.2]
+              exact decide_ask_ok_not_dir hd ha
+
 /-! ### more than one receive with the same `args` object -/
 
 theorem receive_args (a : Args) (fs : FS) (s : Step) : (receive a fs s).1 = a := by
